@@ -24,7 +24,7 @@ ASSUMPTIONS = [
     "at most k states more than the minimal reference automaton",
     "element 'metadata' is judged against 'at most one child of any name' (C05), not its empty children section",
 ]
-REQUIRED = ["validations_below_a_real_parent", "parents_with_optional_attributes", "colon_named_children_with_declared_prefix", "collecting_calls_with_a_very_long_list", "reorders_in_place_on_reused_parent", "real_names_as_strangers", "child_names_of_a_str_subclass", "mixed_parents_with_blank_or_real_text", "sequences_longer_than_256", "table_edit_probes", "validations_of_nested_parent", "foreign_children_with_prefix", "validations_on_reused_parent_object", "validations_on_reused_rule_object", "collecting_calls_with_prefilled_list", "failfast_accept", "failfast_reject", "collecting_accept", "collecting_reject", "oracle_crosschecks"]
+REQUIRED = ["validations_of_nodes_named_unlike_the_rules_elements", "validations_below_a_real_parent", "parents_with_optional_attributes", "colon_named_children_with_declared_prefix", "collecting_calls_with_a_very_long_list", "reorders_in_place_on_reused_parent", "real_names_as_strangers", "child_names_of_a_str_subclass", "mixed_parents_with_blank_or_real_text", "sequences_longer_than_256", "table_edit_probes", "validations_of_nested_parent", "foreign_children_with_prefix", "validations_on_reused_parent_object", "validations_on_reused_rule_object", "collecting_calls_with_prefilled_list", "failfast_accept", "failfast_reject", "collecting_accept", "collecting_reject", "oracle_crosschecks"]
 EXHAUSTIVE = {"quick": False, "thorough": False}
 
 FOREIGN_NAME = "verifForeignElement"
@@ -360,6 +360,15 @@ def run_rule(ctx, rule_name, tier, part, parts):
                     if seq is not None:
                         judge(ctx, rule_name, el, seq, m.verdict(seq), stats, below=gp)
                         ctx.count("validations_below_a_real_parent")
+        # the rule applied, through Rule(name).validate_rule, to nodes that are not called like any of its elements (a project's own text
+        # element under additionalMetadata validated with textRule; an element that is mapped to another rule, mixed or not): a rule's
+        # language is the rule's, whatever the node is called
+        for other_el in ("verifElement", "comment", "para", "title", "dataset", "creator", "access"):
+            if other_el in elements:
+                continue
+            for seq in dict.fromkeys([(), base0] + [(c,) for c in spec.names[:6]] + [tuple(emlkit.sequence_through(rule_name, c) or ()) for c in spec.names[:3]]):
+                judge(ctx, rule_name, other_el, seq, m.verdict(seq), stats)
+                ctx.count("validations_of_nodes_named_unlike_the_rules_elements")
         strangers = ["studyAreaDescription", "protocol", "software", "citation", "references", "metadata", "annotation", "para"]
         strangers += ["eml:" + nm for nm in spec.names[:2]] + ["stmml:" + nm for nm in spec.names[:1]]       # (prefix declared on the parent)
         for fname in strangers:
